@@ -309,6 +309,43 @@ theorem C19_forward_report_subject (cfg : Cfg) (st : St) (now : Nat) (sp : SendP
     obtain ⟨rep', hrep, _⟩ := finishEff_mem _ _ hc
     simp [reportFor, rptDisabled, hrn, hn] at hrep
 
+/-! ### security failure -/
+
+/-- **A bundle deleted for a BCB failure is not reported delivered.** For an accepted whole
+    bundle whose confidentiality step fails with reason `r` (unknown context, undecodable block,
+    decryption failure): it is not delivered, and every report asserts `delivered = no`. -/
+theorem C19_security_failure_report (cfg : Cfg) (st : St) (now : Nat) (rx : RxBundle) (r : Nat)
+    (hacc : accepted cfg st rx) (hf : isFragment rx.primary.flags = false) (hb : rx.bcb = .fail r) :
+    (∀ i, Effect.delivered i ∉ (recvBundle cfg st now rx).2)
+    ∧ ∀ i rep rc, Effect.report i rep rc ∈ (recvBundle cfg st now rx).2 → rep.delivered = .no := by
+  rw [recv_accepted cfg st now rx hacc, dispose_eff, rxChain_eq]
+  obtain ⟨c, hc, hnd⟩ := chain_bcb_fail cfg rx now r
+    (({ primary := rx.primary, rptNone := rx.rptNone, blocks := rx.blocks } : Ctr).record .receive now) rfl hf hb
+  rw [hc]
+  have hrep : ∀ i rep rc, Effect.report i rep rc ∈ finishEff c → rep.delivered = .no := by
+    intro i rep rc hm
+    obtain ⟨rep', hrep, he⟩ := finishEff_mem _ _ hm
+    simp only [Effect.report.injEq] at he
+    obtain ⟨_, rfl, _⟩ := he
+    rw [reportFor_some _ _ hrep]
+    exact statusFor_absent _ _ hnd
+  simp only [hnd, Bool.false_eq_true, if_false, List.nil_append]
+  constructor
+  · intro i hm
+    split at hm
+    · obtain ⟨_, _, h⟩ := finishEff_mem _ _ hm; simp at h
+    · split at hm <;> simp at hm
+  · intro i rep rc hm
+    split at hm
+    · exact hrep i rep rc hm
+    · split at hm <;> simp at hm
+
+-- a bundle for the admin endpoint requesting delivery + deletion reports, BCB of an unknown context
+example : ∃ i rep rc, (recvBundle { nodeId := .dtn [1], rxRoutes := [] } {} 5
+      { primary := { dest := .dtn [1], src := .dtn [3], rpt := .dtn [4], ts := ⟨4, 0⟩, flags := 0x60000 },
+        blocks := [], bcb := .fail 13 }).2 = [.report i rep rc]
+    ∧ rep.delivered = .no ∧ rep.deleted = .yes none ∧ rep.reason = 13 := ⟨_, _, _, rfl, by decide, by decide, by decide⟩
+
 end C19
 end Props
 end DtnVerif
